@@ -223,6 +223,7 @@ LOOP:
 	for i := len(n.indexes); i < len(n.children); i++ {
 		child := n.children[i]
 		path := ctx.Path
+		old, exists := ctx.Get(child.segment.Name) // 同名的参数可能已经由 Matcher 或是之前的节点写入
 
 		if !child.segment.Match(ctx) { // 不匹配
 			continue
@@ -233,7 +234,11 @@ LOOP:
 
 		// 不匹配子元素，则恢复原有数据
 		ctx.Path = path
-		ctx.Delete(child.segment.Name)
+		if exists {
+			ctx.Set(child.segment.Name, old)
+		} else {
+			ctx.Delete(child.segment.Name)
+		}
 	}
 
 	// 没有子节点匹配，len(p.Path)==0，且子节点不为空，可以判定与当前节点匹配。
